@@ -99,6 +99,9 @@ class NameModel(explorer.Model):
                 ops.append(['new', ks, {s: 9}])
             for s in self.sp['R_A']:
                 ops.append(['new', ks, {s: 2}])
+            for s in self.sp['R_A']:
+                ops.append(['new', ks, {s: 99}])      # a referential value that resolves to nothing
+        ops.append(['newpos', 'Ab', [9, 'p', 99]])
         ops.append(['new', 'aB', {'xY': 'p', 'iD': 9, 'r_A': 2}])
         ops.append(['newpos', 'AB', [9, 'p', 2]])
         return ops
@@ -185,6 +188,8 @@ class NameModel(explorer.Model):
             bad('new:exception', 'creation raised %s: %s' % (type(e).__name__, e), 'instance', type(e).__name__)
             return False
         ctx.distinct('outcomes', ('new', 'ok'))
+        if exp['R_A'] != 2:
+            exp['R_A'] = None          # a referential value that matches no instance links nothing
         got = {}
         for u, decl in (('ID', 'Id'), ('XY', 'Xy'), ('R_A', 'R_a')):
             got[u] = getattr(inst, decl)
@@ -192,6 +197,21 @@ class NameModel(explorer.Model):
             exp['ID'] = got['ID']      # defaulted id: any fresh value
         if got != exp:
             bad('new:values', 'created instance reads %s, expected %s' % (got, exp), exp, got)
+            return False
+        # every spelling of every attribute of the new instance reads the same value, and queries agree
+        for u in ('ID', 'XY', 'R_A'):
+            for s in self.sp[u]:
+                ctx.count('reads')
+                g = getattr(inst, s)
+                if g != exp[u]:
+                    bad('new:read', 'created instance reads %r under the spelling %r but %r under the declared one' % (g, s, exp[u]),
+                        exp[u], g)
+                    return False
+                if exp[u] is not None and DELETED not in w.ref.values():
+                    hit = inst in list(w.m.select_many('Ab', xtuml.where_eq(**{s: exp[u]})))
+                    if not hit:
+                        bad('new:where_eq', 'where_eq(%s=%r) misses the created instance' % (s, exp[u]), True, hit)
+                        return False
         return False       # terminal: constructor forms are not expanded further
 
     def check_reads(self, ctx, w, bad, opname):
